@@ -19,12 +19,14 @@
 #define V_CANARY(tag) do { } while (0)
 #define V_RW_OK(p, n) ((p) != NULL)
 #define V_R_OK(p, n) ((p) != NULL)
+#define V_IS_FRESH(p, n) ((p) != NULL)
 #else
 #define V_INPUT(fn, type, var) type var
 /* reachability canary: this obligation MUST FAIL, otherwise the harness is vacuous */
 #define V_CANARY(tag) __CPROVER_assert(0, "canary." tag)
 #define V_RW_OK(p, n) __CPROVER_rw_ok((p), (n))
 #define V_R_OK(p, n) __CPROVER_r_ok((p), (n))
+#define V_IS_FRESH(p, n) __CPROVER_is_fresh((p), (n))
 #endif
 
 /* a stack object whose padding must be defined in the native build */
